@@ -188,6 +188,53 @@ pub struct Inventory {
     pub hash_sites: Vec<(String, String, String)>,     // file, fn, text
     pub panic_sites: Vec<(String, String, String, usize)>, // file, fn, token, count
     pub globals: Vec<(String, String)>,                // file, text
+    /// for every `#[cached]` function: the `#[cached]` functions its body can reach through plain
+    /// (non-memoised) functions, by name (over-approximation: same-named functions are merged)
+    pub cached_calls: Vec<(String, Vec<String>)>,
+}
+
+/// identifiers that are followed by `(` (calls, incl. method calls and paths: the last path segment) in blanked text
+fn callees(text: &str) -> std::collections::BTreeSet<String> {
+    let mut out = std::collections::BTreeSet::new();
+    let cs: Vec<char> = text.chars().collect();
+    let mut i = 0;
+    while i < cs.len() {
+        if cs[i].is_alphabetic() || cs[i] == '_' {
+            let st = i;
+            while i < cs.len() && (cs[i].is_alphanumeric() || cs[i] == '_') {
+                i += 1;
+            }
+            let id: String = cs[st..i].iter().collect();
+            let mut j = i;
+            while j < cs.len() && cs[j] == ' ' {
+                j += 1;
+            }
+            // turbofish `name::<T>(`
+            if j + 2 < cs.len() && cs[j] == ':' && cs[j + 1] == ':' && cs[j + 2] == '<' {
+                let mut depth = 0i32;
+                let mut k = j + 2;
+                while k < cs.len() {
+                    if cs[k] == '<' {
+                        depth += 1;
+                    } else if cs[k] == '>' {
+                        depth -= 1;
+                        if depth == 0 {
+                            k += 1;
+                            break;
+                        }
+                    }
+                    k += 1;
+                }
+                j = k;
+            }
+            if j < cs.len() && cs[j] == '(' && !["if", "while", "match", "for", "fn", "return", "Some", "Ok", "Err", "None"].contains(&id.as_str()) {
+                out.insert(id);
+            }
+        } else {
+            i += 1;
+        }
+    }
+    out
 }
 
 const PANIC_TOKENS: &[&str] = &[
@@ -196,7 +243,8 @@ const PANIC_TOKENS: &[&str] = &[
 ];
 
 pub fn scan(repo: &str) -> Inventory {
-    let mut inv = Inventory { cached: vec![], hash_sites: vec![], panic_sites: vec![], globals: vec![] };
+    let mut inv = Inventory { cached: vec![], hash_sites: vec![], panic_sites: vec![], globals: vec![], cached_calls: vec![] };
+    let mut call_graph: BTreeMap<String, std::collections::BTreeSet<String>> = BTreeMap::new();
     for f in LIB_FILES {
         let path = format!("{}/{}", repo, f);
         let src = match std::fs::read_to_string(&path) {
@@ -210,6 +258,13 @@ pub fn scan(repo: &str) -> Inventory {
         let fns = functions(&bl);
         let lines: Vec<&str> = bl.lines().collect();
         let orig: Vec<&str> = src.lines().collect();
+        for (name, st, en) in &fns {
+            // body text: from the line of `fn name` (signature included; the name itself is skipped below)
+            let body: String = lines[*st..=(*en).min(lines.len().saturating_sub(1))].join(" ");
+            let mut cs = callees(&body);
+            cs.remove(name);
+            call_graph.entry(name.clone()).or_default().extend(cs);
+        }
         // cached attributes (attribute text taken from the original source: keys live in string literals)
         let mut i = 0;
         while i < lines.len() {
@@ -297,6 +352,28 @@ pub fn scan(repo: &str) -> Inventory {
             inv.panic_sites.push((f.to_string(), func, tok, c));
         }
     }
+    // cached functions reachable from each cached function through non-memoised ones
+    let cached_names: Vec<String> = inv.cached.iter().map(|c| c.1.clone()).collect();
+    for c in &cached_names {
+        let mut seen: std::collections::BTreeSet<String> = Default::default();
+        let mut found: std::collections::BTreeSet<String> = Default::default();
+        let mut stack: Vec<String> = call_graph.get(c).map(|s| s.iter().cloned().collect()).unwrap_or_default();
+        // a function calling itself directly was removed above; recursion through others is still found
+        while let Some(n) = stack.pop() {
+            if !seen.insert(n.clone()) {
+                continue;
+            }
+            if cached_names.contains(&n) {
+                found.insert(n);
+                continue;
+            }
+            if let Some(next) = call_graph.get(&n) {
+                stack.extend(next.iter().cloned());
+            }
+        }
+        inv.cached_calls.push((c.clone(), found.into_iter().collect()));
+    }
+    inv.cached_calls.sort();
     inv.cached.sort();
     inv.hash_sites.sort();
     inv.panic_sites.sort();
@@ -314,6 +391,14 @@ pub fn inventory_lean(repo: &str) -> String {
         &inv.cached
             .iter()
             .map(|(f, n, a, p)| format!("  ({}, {}, {}, {}) /- {} {} {} ({}) -/", lean_name(f), lean_name(n), lean_name(a), lean_name(p), f, n, a, p))
+            .collect::<Vec<_>>()
+            .join(",\n"),
+    );
+    o.push_str("]\n\n/-- memoised functions reachable from the body of each memoised function (through plain functions) -/\ndef cachedCalls : List (Name × List Name) := [\n");
+    o.push_str(
+        &inv.cached_calls
+            .iter()
+            .map(|(n, cs)| format!("  ({}, [{}]) /- {} -> {:?} -/", lean_name(n), cs.iter().map(|c| lean_name(c)).collect::<Vec<_>>().join(", "), n, cs))
             .collect::<Vec<_>>()
             .join(",\n"),
     );
